@@ -242,6 +242,35 @@ func callWrites(e *Engine, c *ssa.CallCommon, ws writeSetT) {
 			}
 			return
 		}
+		// a call through a local / captured function variable (worker := func...; go func(){ worker(i) }()):
+		// it may be any closure created by the enclosing top-level function
+		if u, ok := c.Value.(*ssa.UnOp); ok {
+			var holder *ssa.Function
+			switch x := u.X.(type) {
+			case *ssa.Alloc:
+				holder = x.Parent()
+			case *ssa.FreeVar:
+				holder = x.Parent()
+			}
+			if holder != nil {
+				root := holder
+				for root.Parent() != nil {
+					root = root.Parent()
+				}
+				var rec func(f *ssa.Function)
+				rec = func(f *ssa.Function) {
+					for _, a := range f.AnonFuncs {
+						if sig := a.Signature; types.Identical(sig, c.Signature()) {
+							for h, k := range e.writeSet(a) {
+								ws.add(h, k)
+							}
+						}
+						rec(a)
+					}
+				}
+				rec(root)
+			}
+		}
 		// unknown function value: may write through the struct pointers it receives
 		if _, isFn := fieldSpecKeyOf(c.Value); !isFn {
 			for _, a := range c.Args {
